@@ -471,6 +471,19 @@ func c38Run(c c38Case) (verifkit.Outcome, error) {
 		files[f.Name] = f.Size
 	}
 
+	// outside the domain (never generated, guards hand-written replays): a
+	// structure whose size is left to an installer has no extent to judge
+	for _, v := range c.Vols {
+		for _, pp := range v.Partial {
+			for _, st := range v.Structs {
+				if pp == "size" && st.Size == "" {
+					o.Skip = true
+					return o, nil
+				}
+			}
+		}
+	}
+
 	doc := c38Render(c)
 	o.Desc = string(doc)
 	model := c38ModelOf(c.Model)
@@ -772,7 +785,10 @@ func (g *c38Gen) volume(vi int, name string) c38Vol {
 		v.ID = "0C"
 	}
 	if g.noise("partial", 30) {
-		v.Partial = []string{c38From(g, "partial", []string{"filesystem", "structure", "size", "bogus"})}
+		// "size" is left out on purpose: a structure whose size is to be filled
+		// in by an installer has no extent yet, the statement is about volumes
+		// with sized structures
+		v.Partial = []string{c38From(g, "partial", []string{"filesystem", "structure", "bogus"})}
 	}
 	n := c38From(g, "nstruct", []int{1, 2, 3, 3, 4, 4, 5, 5, 6, 6, 7, 8})
 	if vi > 0 {
